@@ -152,7 +152,8 @@ def compare_all(rep, texts, qbits, project, prop_label):
                 else:
                     disagreements.append((name, text, 'impl-rejects', r[2], ans_tree[:500]))
             else:  # crash in the implementation
-                if ans_tree.startswith('unsupported') or any(mk in ans_tree for mk in MARKERS):
+                # both runs fail (the model may report a later validation error of the same input first)
+                if ans_tree.startswith(('unsupported', 'err')) or any(mk in ans_tree for mk in MARKERS):
                     rep.bump('both_crash_or_unsupported')
                 else:
                     disagreements.append((name, text, 'impl-crash:' + kind, r[2], ans_tree[:500]))
